@@ -10,8 +10,8 @@ RULE = ("Ts and TsGroup on single-interval supports [a,b] with a in {0, 100 s, -
         "(b) np.random.uniform / permutation replaced (harness side) by a recorded lattice-valued generator so that the Lean "
         "model, a deterministic function of the draws, must reproduce the result exactly. distinct = distinct (input, draws)")
 PROVED = ("shift_inside (wrapped time in [a,b) for every t, shift, support), shift_count, shift_all_inside (constructor drops "
-          "nothing), shift_period, shuffle_first, shuffle_diffs + permute_perm (intervals are a permutation), jitter_count")
-NOT_PROVED = "jitter order-statistics bound (k-th sorted timestamp moves by <= max_jitter), resample, TsGroup member-wise lifting: oracle only"
+          "nothing), shift_period, shuffle_first, shuffle_diffs + permute_perm (intervals are a permutation), jitter_count, jitter_order_stat (the k-th sorted jittered timestamp is within max|jitter| of the k-th original one; any length, ties)")
+NOT_PROVED = "resample, TsGroup member-wise lifting: oracle only"
 ASSUMPTIONS = ["draws are inputs of the model; the 1e-9 rounding of new timestamps is bounded (2 ns tolerance), not proved"]
 
 
